@@ -94,6 +94,7 @@ func newParser(input string, builtins Builtins) *parser {
 	}
 	for name, funcDef := range builtins.Funcs {
 		fd := *funcDef
+		fd.ReturnType = fixedType(fd.ReturnType) // results are not literals
 		p.funcs[name] = &fd
 	}
 	funcs := p.consumeTokens(l)
